@@ -59,6 +59,10 @@ def cases(tier, seed):
                     "nx": 150 if tier == "quick" else 400})
     for m in (1, 2, 3, 7, 10, 20, 33, 50):
         out.append({"kind": "n1", "N": 1, "m": m, "seed": seed})
+    # one Evolvent object whose bounds are replaced with SetBounds between queries: "for arbitrary bounds" also means
+    # the bounds in force now
+    for i in range(24 if tier == "quick" else 240):
+        out.append({"kind": "rebound", "i": i, "seed": seed, "N": 0, "m": 0})
     return out
 
 
@@ -159,6 +163,37 @@ def run_case(c):
         obs.update({"box_images": len(xs), "boxes": 1})
         return {"violations": viol, "obs": obs, "nontrivial": True, "key": "box|%d|%d|%d" % (N, m, c["i"]),
                 "sample": {"kind": "box", "N": N, "m": m, "lower": c["lower"], "upper": c["upper"], "points": len(xs)} if c["i"] < 2 else None}
+    if kind == "rebound":
+        rng = scenario.rng_for(c["seed"], "C07rb", c["i"])
+        N = int(rng.integers(1, 6))
+        m = int(rng.integers(1, min(12, 50 // N) + 1))
+        un = em.unit_evolvent(N, m)
+        ev = None
+        nb = 0
+        for b in range(int(rng.integers(2, 7))):
+            lo_l, hi_l, bk = scenario.gen_box(rng, N)
+            if ev is None:
+                ev = Evolvent(lo_l, hi_l, N, m) if rng.random() < 0.7 else Evolvent([], [], N, m)
+                if len(np.atleast_1d(ev.lowerBoundOfFloatVariables)) == 0:
+                    ev.SetBounds(lo_l, hi_l)
+            else:
+                ev.SetBounds(np.array(lo_l, dtype=float) if rng.random() < 0.5 else lo_l, np.array(hi_l, dtype=float) if rng.random() < 0.5 else hi_l)
+            nb += 1
+            lo = np.array(lo_l, dtype=float)
+            hi = np.array(hi_l, dtype=float)
+            side = hi - lo
+            tol = 8 * np.spacing(np.maximum(np.maximum(np.abs(lo), np.abs(hi)), side))
+            for x in [0.0, 1.0] + [float(v) for v in rng.random(int(rng.integers(1, 12)))]:
+                y = ev.GetImage(x)
+                ref = lo + un.GetImage(x) * side
+                obs["rebound_images"] = obs.get("rebound_images", 0) + 1
+                if np.any(np.abs(y - ref) > tol) or np.any(y < lo - tol) or np.any(y > hi + tol):
+                    if len(viol) < 5:
+                        viol.append({"mech": "image-not-in-current-box", "x": x, "image": y.tolist(), "expected": ref.tolist(), "lower": lo_l, "upper": hi_l,
+                                     "bounds_set": nb, "N": N, "m": m})
+        obs["rebound_objects"] = 1
+        return {"violations": viol, "obs": obs, "nontrivial": True, "key": "rebound|%d" % c["i"],
+                "sample": {"kind": "SetBounds sequence on one object", "N": N, "m": m, "boxes": nb} if c["i"] < 2 else None}
     if kind == "n1":
         ev = em.unit_evolvent(1, m)
         n = 1 << m
@@ -206,6 +241,6 @@ def finalize(obs, tier, stats):
     need_nm = 50
     if obs.get("max_Nm", 0) < need_nm:
         return "windows never reached N*m = 50", extra, viol
-    if not obs.get("end_windows") or not obs.get("x1_checked") or not obs.get("boxes") or not obs.get("n1_images"):
+    if not obs.get("end_windows") or not obs.get("x1_checked") or not obs.get("boxes") or not obs.get("n1_images") or not obs.get("rebound_images"):
         return "a probe class was never exercised", extra, viol
     return None, extra, viol
